@@ -17,3 +17,8 @@ open XsVerif.Props.C02
 #print axioms restriction_narrows
 #print axioms union_first_match
 #print axioms list_itemwise
+#print axioms countDigits_counterexample
+#print axioms leap_year_counterexample
+#print axioms duration_lexical_counterexample
+#print axioms timezone_equality_counterexample
+#print axioms timezone_range
